@@ -14,11 +14,7 @@ use crate::builtins::{
     ProcessResultBuiltin, StringBuiltin,
 };
 use crate::diagnostics::{AsStr, Diagnostics, Label, Severity, Span};
-#[cfg(target_family = "wasm")]
-use crate::helpers::KIBI;
-use crate::helpers::LenWriter;
-#[cfg(not(target_family = "wasm"))]
-use crate::helpers::MEBI;
+use crate::helpers::{LenWriter, StackGuard};
 use crate::process::{
     HostHandle, HostPolicy, HostValue, OutputPolicy, ProcessCommand, ProcessError, ProcessResult,
     StdinPolicy,
@@ -104,14 +100,10 @@ impl RuntimeError {
     }
 }
 
-/// Maximum native stack bytes the runtime is allowed to consume.
-/// Adapts automatically to debug vs release frame sizes and platform
-/// stack limits. Sized to fit within the default 8 MiB thread stack
-/// with headroom for the parser, resolver, and error reporting above.
-#[cfg(target_family = "wasm")]
-const STACK_BUDGET: usize = 512 * KIBI;
-#[cfg(not(target_family = "wasm"))]
-const STACK_BUDGET: usize = 4 * MEBI;
+/// Arrays may nest at most this deep. Copying, promoting, printing, joining and dropping a
+/// value recurse on its nesting without a stack probe, so the bound is enforced at the three
+/// places where nesting is created: array literals, `push` and index assignment.
+const MAX_ARRAY_NESTING: usize = 512;
 
 /// Verification hook (feature `verif-hooks`): appends one event to the memory-discipline trace.
 #[cfg(feature = "verif-hooks")]
@@ -188,6 +180,22 @@ impl<'a> Value<'a> {
                 Value::Array(new)
             }
         }
+    }
+
+    /// Nesting depth: 0 for scalars, 1 + the deepest element for arrays.
+    fn nesting(&self) -> usize {
+        match self {
+            Value::Array(items) => 1 + items.iter().map(Value::nesting).max().unwrap_or(0),
+            _ => 0,
+        }
+    }
+
+    /// Fails when placing this value inside `outer` enclosing arrays would nest too deep.
+    fn check_nesting(&self, outer: usize, span: Span) -> Result<(), RuntimeError> {
+        if outer + self.nesting() > MAX_ARRAY_NESTING {
+            return Err(RuntimeError::new(RuntimeErrorKind::StackOverflow, span));
+        }
+        Ok(())
     }
 
     /// Returns this value's pool slot to the pool allocator.
@@ -317,9 +325,8 @@ pub struct Runtime<'a> {
     // Pool allocator for recyclable string storage during promote
     pool: PoolSet<'a>,
 
-    // Native stack pointer recorded at run() entry. Used to detect
-    // stack overflow by comparing against the current stack pointer.
-    stack_base: usize,
+    // Native stack probe anchored at run() entry.
+    stack: StackGuard,
 
     // Optional persistent analysis facts used for binding-safe runtime dispatch.
     facts: Option<NonNull<ProgramFacts<'a, 'a>>>,
@@ -359,7 +366,7 @@ impl<'a> Runtime<'a> {
             arena,
             frame,
             pool,
-            stack_base: 0,
+            stack: StackGuard::new(),
             facts: None,
             optimization_plan: None,
             host_policy,
@@ -393,9 +400,7 @@ impl<'a> Runtime<'a> {
     /// deeply nested expression evaluation in a single check.
     #[inline]
     fn check_stack(&self, span: Span) -> Result<(), RuntimeError> {
-        let probe = 0u8;
-        let current = &raw const probe as usize;
-        if self.stack_base.wrapping_sub(current) > STACK_BUDGET {
+        if self.stack.exceeded() {
             return Err(RuntimeError::new(RuntimeErrorKind::StackOverflow, span));
         }
         Ok(())
@@ -408,8 +413,7 @@ impl<'a> Runtime<'a> {
     }
 
     fn run_inner(&mut self, root: BlockRef<'a>) {
-        let anchor = 0u8;
-        self.stack_base = &raw const anchor as usize;
+        self.stack = StackGuard::new();
         self.push_scope_with_capacity(0, self.arena, None);
 
         match self.exec_block_with_flow(root) {
@@ -824,10 +828,11 @@ impl<'a> Runtime<'a> {
                     _ => Err(RuntimeError::new(RuntimeErrorKind::TypeMismatch, *span)),
                 }
             }
-            Expr::Array { elements, .. } => {
+            Expr::Array { elements, span } => {
                 let mut values = Vec::with_capacity_in(elements.len(), self.frame);
                 for element in *elements {
                     let val = self.eval_expr(element)?;
+                    val.check_nesting(1, *span)?;
                     values.push(val);
                 }
                 Ok(Value::Array(values))
@@ -1128,6 +1133,14 @@ impl<'a> Runtime<'a> {
                 } else {
                     value
                 };
+                // The receiver sits inside one array per index in `a[i][j].push(..)`.
+                let mut outer = 1;
+                let mut target = receiver;
+                while let Expr::Index { array, .. } = target {
+                    outer += 1;
+                    target = array;
+                }
+                value.check_nesting(outer, span)?;
                 let array = self.get_mutable_array(receiver, span, field)?;
                 ArrayBuiltin::push(array, value);
                 Ok(Value::Null)
@@ -1786,6 +1799,8 @@ impl<'a> Runtime<'a> {
             let idx = self.eval_index_value(index_expr, *index_span)?;
             evaluated_indices.push((idx, *index_span));
         }
+
+        value.check_nesting(evaluated_indices.len(), span)?;
 
         // Promote before taking the mutable borrow on the variable.
         let value =
